@@ -10,7 +10,7 @@
    valued before NaN-valued; two valued ones: not smaller (descending) / not larger (ascending),
    equal values in Python's tuple order; two NaN-valued ones: payload order. *)
 From Coq Require Import List Sorting Permutation ZArith String Bool Lia Arith QArith Reals.
-From CC Require Import Base.XQ Base.SortX Spec.OrderSpec Model.Collator Model.SortKeys
+From CC Require Import Base.XQ Base.ListX Base.SortX Spec.OrderSpec Model.Collator Model.SortKeys
   Proofs.OrderVisible Proofs.SbvDedup Proofs.OrderSbv Proofs.SortKeysProofs Proofs.SortKeysResolve
   Proofs.SortKeysReals.
 Import ListNotations.
@@ -230,7 +230,8 @@ Print Assumptions C08_surrogate_sorted.
 
 (* every reading of the keyword tables is such a public value, for a positive population * fraction:
    std-dev = sqrt(variance) (stated through squares), MoE = Z_975 * std-err, population count =
-   proportion * population * fraction, population MoE = Z_975 * population * fraction * std-err *)
+   proportion * population * fraction (difference subtotals included: NaN reads NaN,
+   C08_population_difference_reads), population MoE = Z_975 * population * fraction * std-err *)
 Theorem C08_surrogate_monotone (r : reading) (c : Q) key pub :
   (0 < c)%Q -> (forall z, reads r c (key z) (pub z)) -> same_order key pub.
 Proof. exact (reads_same_order r c key pub). Qed.
@@ -270,18 +271,188 @@ Theorem C08_sqrt_sorted (l : list R) :
 Proof. exact (sqrt_sorted_descending l). Qed.
 Print Assumptions C08_sqrt_sorted.
 
-(* The population keyword and DIFFERENCE subtotals: the public population count of a difference is
-   NaN, the helper sorts the subtotal group on the (numeric) proportion - the hypothesis "same NaN set"
-   of C08_surrogate_sorted fails and so does the conclusion (known finding
-   C08-population-difference-subtotals). *)
-Theorem C08_population_difference_refuted :
-  exists (d : dimension) (s : sortspec) (skeys spubs : list xq),
-    (forall k, k < List.length skeys ->
-       nth k spubs NaN = NaN \/ nth k spubs NaN =x= xmul (nth k skeys NaN) (Fin 1000)) /\
-    ~ StronglySorted (weakly_precedes (s_desc s) (skeyf spubs))
-        (filter (fun z => (z <? 0)%Z) (sbv_display d s [] (map VNum skeys) [])).
-Proof. exact population_difference_refuted. Qed.
-Print Assumptions C08_population_difference_refuted.
+(* ---- the population keyword and DIFFERENCE subtotals ------------------------------------------------------- *)
+(* The public population count of a difference subtotal is NaN.  Since /repo e7676546 (former finding
+   C08-population-difference-subtotals) the population PROPORTIONS the helpers sort on carry NaN in every
+   vector of a difference subtotal too ([population_blocks] / [population_vblocks], read by the helpers
+   through [slice_measures] / [strand_measures]) - cell by cell: *)
+Theorem C08_population_blocks drows dcols b :
+  let p := population_blocks drows dcols b in
+  mb_base p = mb_base b /\
+  (forall i j, mnth (mb_scols p) i j = if nth j dcols false then NaN else mnth (mb_scols b) i j) /\
+  (forall k j, mnth (mb_srows p) k j = if nth k drows false then NaN else mnth (mb_srows b) k j) /\
+  (forall k j, mnth (mb_inter p) k j
+               = if nth k drows false || nth j dcols false then NaN else mnth (mb_inter b) k j).
+Proof. exact (population_blocks_spec drows dcols b). Qed.
+Print Assumptions C08_population_blocks.
+
+Theorem C08_population_strand_values diffs base subs :
+  fst (population_vblocks diffs (base, subs)) = base /\
+  List.length (snd (population_vblocks diffs (base, subs))) = List.length subs /\
+  forall k, vnth (snd (population_vblocks diffs (base, subs))) k
+            = if nth k diffs false then NaN else vnth subs k.
+Proof. exact (population_vblocks_spec diffs base subs). Qed.
+Print Assumptions C08_population_strand_values.
+
+(* only the `population` keyword reads them (population_moe sorts on the population std-err, whose
+   public value for a difference is a number); every other measure is what it was *)
+Theorem C08_population_keyword :
+  filter (fun r => String.eqb (kw_prop r) population_prop) matrix_table
+  = [mkKw "population" population_prop "population_counts" TimesPopulation]
+  /\ filter (fun r => String.eqb (kw_prop r) population_prop) strand_table
+     = [mkKw "population" population_prop "population_counts" TimesPopulation]
+  /\ forall drows dcols diffs (raw : menv) (vraw : venv) p,
+       p <> population_prop ->
+       slice_measures drows dcols raw p = raw p /\ strand_measures diffs vraw p = vraw p.
+Proof. exact population_keyword. Qed.
+Print Assumptions C08_population_keyword.
+
+(* the key vectors of the helpers (C08_*_key_by_* below), cell by cell *)
+Theorem C08_key_vectors_pointwise m i j :
+  nth i (column_of m j) (VNum NaN) = VNum (mnth m i j)
+  /\ nth j (row_of m i) (VNum NaN) = VNum (mnth m i j).
+Proof. exact (key_vectors_pointwise m i j). Qed.
+Print Assumptions C08_key_vectors_pointwise.
+
+(* so the key of a sort by `population` is the proportion, and NaN at every difference: in the subtotal
+   group of the sorted dimension, and everywhere when the key is taken at an opposing difference *)
+Theorem C08_population_rows_key_by_element o opp drows dcols raw marg labels sublabels vals svals :
+  o_measure o = Some "population"%string ->
+  rows_values o opp (slice_measures drows dcols raw) marg labels sublabels MOppElement
+  = Ok (Some (vals, svals)) ->
+  exists b x j,
+    raw population_prop = Some b /\
+    o_element_id o = Some x /\ j < List.length (p_ids opp) /\ nth j (p_ids opp) INone = x /\
+    (forall i, nth i vals (VNum NaN) = VNum (mnth (mb_base b) i j)) /\
+    (forall k, nth k svals (VNum NaN)
+               = VNum (if nth k drows false then NaN else mnth (mb_srows b) k j)).
+Proof.
+  exact (population_rows_key_by_element o opp drows dcols raw marg labels sublabels vals svals).
+Qed.
+Print Assumptions C08_population_rows_key_by_element.
+
+Theorem C08_population_rows_key_by_insertion o opp drows dcols raw marg labels sublabels vals svals :
+  o_measure o = Some "population"%string ->
+  p_array opp = false ->
+  rows_values o opp (slice_measures drows dcols raw) marg labels sublabels MOppInsertion
+  = Ok (Some (vals, svals)) ->
+  exists b z j,
+    raw population_prop = Some b /\
+    o_insertion_id o = Some (IInt z) /\ j < List.length (p_ins_ids opp) /\
+    nth j (p_ins_ids opp) 0%Z = z /\
+    (forall i, nth i vals (VNum NaN)
+               = VNum (if nth j dcols false then NaN else mnth (mb_scols b) i j)) /\
+    (forall k, nth k svals (VNum NaN)
+               = VNum (if nth k drows false || nth j dcols false then NaN
+                       else mnth (mb_inter b) k j)).
+Proof.
+  exact (population_rows_key_by_insertion o opp drows dcols raw marg labels sublabels vals svals).
+Qed.
+Print Assumptions C08_population_rows_key_by_insertion.
+
+Theorem C08_population_columns_key_by_element o opp drows dcols raw labels sublabels vals svals :
+  o_measure o = Some "population"%string ->
+  columns_values o opp (slice_measures drows dcols raw) labels sublabels MOppElement
+  = Ok (Some (vals, svals)) ->
+  exists b x i,
+    raw population_prop = Some b /\
+    o_element_id o = Some x /\ i < List.length (p_ids opp) /\ nth i (p_ids opp) INone = x /\
+    (forall j, nth j vals (VNum NaN) = VNum (mnth (mb_base b) i j)) /\
+    (forall j, nth j svals (VNum NaN)
+               = VNum (if nth j dcols false then NaN else mnth (mb_scols b) i j)).
+Proof.
+  exact (population_columns_key_by_element o opp drows dcols raw labels sublabels vals svals).
+Qed.
+Print Assumptions C08_population_columns_key_by_element.
+
+Theorem C08_population_columns_key_by_insertion o opp drows dcols raw labels sublabels vals svals :
+  o_measure o = Some "population"%string ->
+  columns_values o opp (slice_measures drows dcols raw) labels sublabels MOppInsertion
+  = Ok (Some (vals, svals)) ->
+  exists b z k,
+    raw population_prop = Some b /\
+    o_insertion_id o = Some (IInt z) /\ k < List.length (p_ins_ids opp) /\
+    nth k (p_ins_ids opp) 0%Z = z /\
+    (forall j, nth j vals (VNum NaN)
+               = VNum (if nth k drows false then NaN else mnth (mb_srows b) k j)) /\
+    (forall j, nth j svals (VNum NaN)
+               = VNum (if nth k drows false || nth j dcols false then NaN
+                       else mnth (mb_inter b) k j)).
+Proof.
+  exact (population_columns_key_by_insertion o opp drows dcols raw labels sublabels vals svals).
+Qed.
+Print Assumptions C08_population_columns_key_by_insertion.
+
+Theorem C08_population_strand_key o diffs (raw : venv) labels sublabels vals svals :
+  o_measure o = Some "population"%string ->
+  strand_values o (strand_measures diffs raw) labels sublabels MUnivariate = Ok (Some (vals, svals)) ->
+  exists base subs,
+    raw population_prop = Some (base, subs) /\ vals = map VNum base /\
+    List.length svals = List.length subs /\
+    forall k, nth k svals (VNum NaN) = VNum (if nth k diffs false then NaN else vnth subs k).
+Proof. exact (population_strand_key o diffs raw labels sublabels vals svals). Qed.
+Print Assumptions C08_population_strand_key.
+
+(* THE POSITIVE STATEMENT (it replaces C08_population_difference_refuted).  [key]: the proportion, NaN at
+   the differences - what the repaired code sorts on; [pub]: proportion * population * fraction, NaN at
+   the differences - the public population_counts.  The public value READS the key the way the keyword
+   table says for EVERY vector, differences included: the hypothesis of C08_surrogate_monotone holds,
+   hence the same NaN set and the same weak order *)
+Theorem C08_population_difference_reads (c : Q) (diff : Z -> bool) (prop key pub : Z -> xq) :
+  (forall z, key z = if diff z then NaN else prop z) ->
+  (forall z, pub z =x= if diff z then NaN else xmul (prop z) (Fin c)) ->
+  forall z, reads TimesPopulation c (key z) (pub z).
+Proof. exact (population_difference_reads c diff prop key pub). Qed.
+Print Assumptions C08_population_difference_reads.
+
+Theorem C08_population_difference_same_order (c : Q) (diff : Z -> bool) (prop key pub : Z -> xq) :
+  (0 < c)%Q ->
+  (forall z, key z = if diff z then NaN else prop z) ->
+  (forall z, pub z =x= if diff z then NaN else xmul (prop z) (Fin c)) ->
+  same_order key pub.
+Proof. exact (population_difference_same_order c diff prop key pub). Qed.
+Print Assumptions C08_population_difference_same_order.
+
+(* the subtotal group of a sort by population on a dimension WITH difference subtotals: weakly sorted
+   in the public population counts, the NaN-valued (difference) subtotals last in payload order *)
+Theorem C08_population_difference_subtotals d s vals (c : Q) (diffs : list bool)
+        (props spubs : list xq) empties :
+  (0 < c)%Q -> List.length props = List.length spubs ->
+  (forall k, k < List.length props ->
+     nth k spubs NaN =x= if nth k diffs false then NaN else xmul (nth k props NaN) (Fin c)) ->
+  StronglySorted (weakly_precedes (s_desc s) (skeyf spubs))
+    (filter (fun z => (z <? 0)%Z)
+            (sbv_display d s vals (map VNum (nan_where diffs props)) empties)).
+Proof. exact (population_display_subtotals d s vals c diffs props spubs empties). Qed.
+Print Assumptions C08_population_difference_subtotals.
+
+(* a key taken AT an opposing difference insertion is NaN for every vector (C08_population_rows_key_by_
+   insertion, _columns_key_by_insertion): the free base elements and the subtotal group then stand in
+   payload order, as the all-NaN public values ask *)
+Theorem C08_all_nan_payload_order d s (vals svals : list sval) empties :
+  (forall i, sval_nan (nth i vals (VNum NaN)) = true) ->
+  (forall k, sval_nan (nth k svals (VNum NaN)) = true) ->
+  StronglySorted Z.lt (filter (free_base (all_fixed d s)) (sbv_display d s vals svals empties))
+  /\ StronglySorted Z.lt (filter (fun z => (z <? 0)%Z) (sbv_display d s vals svals empties)).
+Proof. exact (all_nan_payload_order d s vals svals empties). Qed.
+Print Assumptions C08_all_nan_payload_order.
+
+(* the former witness of the finding (3x2 counts [[3,1],[1,1],[4,0]], row subtotals "1 minus 2" and
+   "1 or 2", a column difference "1 minus 2", population 1000; [fw_raw]: the unmasked proportions = what
+   the former code sorted on): (1) rows ascending by the population of column id 1 - public subtotal
+   values NaN, 400: the valued subtotal now stands before the difference (it was the other way round);
+   (2) rows descending by the population of the column difference - payload order now (it was the order
+   of the hidden proportions) *)
+Theorem C08_population_difference_former_witness :
+  let repaired := slice_measures [true; false] [true] fw_raw in
+  fw_order fw_by_element repaired = Ok [1; 0; 2; -1; -2]%Z /\
+  fw_order fw_by_element fw_raw = Ok [1; 0; 2; -2; -1]%Z /\
+  StronglySorted (weakly_precedes false (skeyf [NaN; Fin 400])) [-1; -2]%Z /\
+  ~ StronglySorted (weakly_precedes false (skeyf [NaN; Fin 400])) [-2; -1]%Z /\
+  fw_order fw_by_insertion repaired = Ok [-2; -1; 0; 1; 2]%Z /\
+  fw_order fw_by_insertion fw_raw = Ok [-1; -2; 2; 0; 1]%Z.
+Proof. exact population_difference_former_witness. Qed.
+Print Assumptions C08_population_difference_former_witness.
 
 (* ---- the sort key is the named vector of the named measure ------------------------------------------------ *)
 Theorem C08_rows_key_by_element o opp env marg labels sublabels vals svals :
